@@ -550,6 +550,22 @@ def check_checkdm_stub(eps, occ_max, occs):
 
 def _dm_case(rng, n):
     kind = rng.choice(["generic", "degenerate", "zeros", "integer", "closed-shell"])
+    shape = rng.choice(["dense", "dense", "blocks", "diagonal"]) if n >= 2 else rng.choice(["dense", "diagonal"])
+    if shape == "blocks":
+        # two non-interacting fragments: overlap and density are block diagonal, so every natural orbital has exact
+        # zeros on the other fragment's basis functions (in particular on the first basis function)
+        n1 = rng.randint(1, n - 1)
+        s1, d1, o1 = _rand_problem(rng, n1, kind)
+        s2, d2, o2 = _rand_problem(rng, n - n1, kind)
+        s = np.zeros((n, n))
+        d = np.zeros((n, n))
+        s[:n1, :n1], s[n1:, n1:] = s1, s2
+        d[:n1, :n1], d[n1:, n1:] = d1, d2
+        return kind + "/blocks", s, d, np.concatenate([o1, o2])
+    if shape == "diagonal":
+        # orthonormal basis, density diagonal in it: the natural orbitals are the basis functions themselves
+        _s, _d, occ = _rand_problem(rng, n, kind)
+        return kind + "/diagonal", np.eye(n), np.diag(occ), occ
     s, d, occ = _rand_problem(rng, n, kind)
     return kind, s, d, occ
 
